@@ -8,6 +8,7 @@ import (
 	"fmt"
 	"sort"
 	"strings"
+	"time"
 
 	"github.com/csgura/fp"
 	"verif/mc"
@@ -123,8 +124,8 @@ func scenario(k int, roles []role, execKind string) func(x *mc.X) {
 		for i := 0; i < k; i++ {
 			regComplete(fmt.Sprintf("pre%d", i))
 		}
-		results := make([]string, len(roles))  // what each completer tried to set
-		returned := make([]int, len(roles))    // -1 not a completer / not returned, 0 false, 1 true
+		results := make([]string, len(roles)) // what each completer tried to set
+		returned := make([]int, len(roles))   // -1 not a completer / not returned, 0 false, 1 true
 		for i := range returned {
 			returned[i] = -1
 		}
@@ -274,6 +275,9 @@ func main() {
 		r.Assumptions = []string{
 			"sync/atomic operations are sequentially consistent and are the only inter-thread communication of Promise (plain accesses between two atomic operations are attributed to the preceding operation; same-cell operations are never reordered by the reduction)",
 			"the overlay shims (verifrt) preserve the semantics of the primitives they wrap",
+		}
+		if r.Thorough() {
+			r.Deadline = 90 * time.Minute
 		}
 		if !mc.Instrumented {
 			panic("C05 must be built with the overlay (-tags verifrt)")
